@@ -134,8 +134,6 @@ def uniq_model_lines(c):
 
 
 def parse_result(s):
-    if s == "empty":
-        return "empty"
     rows, idx, inv = s.split()
     rows = [] if rows == "-" else [[int(x) for x in r.split(",")] for r in rows.split("|")]
     idx = [] if idx == "-" else [int(x) for x in idx.split(",")]
@@ -155,21 +153,9 @@ def uniq_model_check(ctx, c, outs):
         outs = [outs[0]] + list(outs[2:])
     if len(outs) > 1:
         m2 = parse_result(outs[1])
-        if m == "empty" or m2 == "empty":
-            if m != m2:
-                return f"model float path {outs[0]} vs exact Int path {outs[1]}"
-        elif (m[1], m[2], len(m[0])) != (m2[1], m2[2], len(m2[0])):
+        if (m[1], m[2], len(m[0])) != (m2[1], m2[2], len(m2[0])):
             return f"model float path {outs[0]} disagrees with its exact Int path {outs[1]} on dyadic input"
     res = call_unique(obj, c)
-    if m == "empty":  # Rotation.unique on an empty object returns `self.empty()` whatever was requested
-        if isinstance(res, tuple):  # the corrected behaviour: the requested tuple with empty index arrays
-            u, idx, inv, serr = unpack(res, c)
-            if serr or u.size or (idx is not None and len(idx)) or (inv is not None and len(inv)):
-                return f"empty input: orix returned {res!r}"
-            return None
-        if res.size != 0:
-            return f"model: bare empty object; orix returned {type(res).__name__}"
-        return None
     u, idx, inv, serr = unpack(res, c)
     if serr:
         return "structure: " + serr
@@ -312,13 +298,7 @@ def pred_base_inv(case):
         and _why(case).startswith("inv_reconstructs:")
 
 
-def pred_rot_empty(case):
-    return case.get("cls") in ROT and int(np.prod(case["shape"])) == 0 \
-        and (case["opts"]["return_index"] or case["opts"]["return_inverse"]) and _why(case).startswith("structure:")
-
-
-PREDICATES = {"base_idx_not_for_returned": pred_base_idx, "base_inv_not_for_returned": pred_base_inv,
-              "rotation_empty_no_maps": pred_rot_empty}
+PREDICATES = {"base_idx_not_for_returned": pred_base_idx, "base_inv_not_for_returned": pred_base_inv}
 
 SITES = {
     "uniq_model": sites.Site("uniq_model", "corr", uniq_model_check, uniq_model_lines),
